@@ -65,6 +65,27 @@ def lean_str(s: str) -> str:
     return "([" + ", ".join(f"Char.ofNat {ord(c)}" for c in s) + "] : Str)"
 
 
+LEAN_RESERVED = set("""
+fun at do then else if let have show from in with match end open section namespace variable universe example theorem def
+instance structure inductive class where deriving extends mutual private protected partial unsafe noncomputable local scoped
+attribute export import macro syntax notation prefix infix infixl infixr postfix by calc this Type Sort Prop axiom abbrev opaque
+omit include using forall exists nomatch nofun return mut for unless break continue try catch finally throw initialize elab
+suffices sorry admit native_decide implemented_by termination_by decreasing_by set_option macro_rules
+""".split())
+# names the translator itself binds in the generated text
+TRANSLATOR_NAMES = set("m env v w e r n s st inner kb buffer limit fault line decodeUtf8 c".split())
+
+
+def lean_ident(name: str) -> str:
+    """The Lean binder for a Python local: the name itself, unless Lean reserves it or the translator binds it (a local
+    called `m` must not capture the handler's message `m`; one called `end` must not end the namespace)."""
+    import re
+    if name in LEAN_RESERVED or name in TRANSLATOR_NAMES or re.fullmatch(r"(m|x|c|n|k|on|o|e|ch|pv|raw|q|u|init|last)\d+", name) \
+            or not re.fullmatch(r"[A-Za-z_][A-Za-z0-9_]*", name) or name == "_":
+        return "py_" + "".join(ch if ch.isalnum() or ch == "_" else "_" for ch in name)
+    return name
+
+
 LIB_ERRORS = {
     "MissingNodeError": lambda a: f"(.lib (.missingNode {a[0]}))",
     "MissingChildError": lambda a: f"(.lib (.missingChild {a[0]}))",
@@ -101,6 +122,8 @@ class Tr:
         self.uses_env = False
         self.uses_v = False
         self.exc_var = None                 # lean name of the exception inside an except clause
+        self.optkey = {}                    # local bound to `gateway.nodes.get(K)` -> lean text of K
+        self.in_loop = False
 
     def fresh(self, base: str) -> str:
         self.n += 1
@@ -168,6 +191,9 @@ class Tr:
             if ty != "int":
                 raise Untranslatable("unary minus on non-int")
             return pre, f"(-{t})", "int"
+        if isinstance(node, ast.BinOp) and isinstance(node.op, ast.Add) and isinstance(node.left, ast.Constant) \
+                and node.left.value == "handle_":
+            return self.handler_name(node)
         if isinstance(node, ast.BinOp) and isinstance(node.op, (ast.Add, ast.Sub)):
             p1, a, ta = self.expr(node.left)
             p2, b, tb = self.expr(node.right)
@@ -196,6 +222,8 @@ class Tr:
             return [], "[" + ", ".join(p[1] for p in parts) + "]", "intlist"
         if isinstance(node, ast.Await):
             return self.expr(node.value)
+        if isinstance(node, ast.JoinedStr):
+            return self.handler_name(node)
         raise Untranslatable(f"expression {type(node).__name__}")
 
     def wrap(self, pre, body: str) -> str:
@@ -306,6 +334,8 @@ class Tr:
                 return [], f"(pyRoundFloat {t})", ("exc", "int")
             if f.id == "int" and len(node.args) == 1:
                 pre, t, ty = self.expr(node.args[0])
+                if ty == "int":
+                    return pre, t, "int"          # int(<an int or IntEnum member>) is that number
                 if ty != "str" or pre:
                     raise Untranslatable("int(non-str)")
                 return [], f"(Lit.pyIntE {t})", ("exc", "int")
@@ -357,18 +387,23 @@ class Tr:
         for name in names:
             d = sig.parameters[name].default
             vals[name] = lean_int(d) if isinstance(d, int) else lean_str(d)
-        if node.args:
-            raise Untranslatable("Message(...) with positional arguments")
+        if any(isinstance(a, ast.Starred) for a in node.args) or any(kw.arg is None for kw in node.keywords) \
+                or len(node.args) > len(names):
+            raise Untranslatable("Message(...) with starred arguments")
+        # positional arguments first, then keywords: the order Python evaluates them in
+        given = list(zip(names, node.args)) + [(kw.arg, kw.value) for kw in node.keywords]
+        if len({g[0] for g in given}) != len(given):
+            raise Untranslatable("Message(...) argument given twice")
         pre = []
-        for kw in node.keywords:
-            if kw.arg not in vals:
-                raise Untranslatable(f"Message(...) keyword {kw.arg}")
-            p, t, ty = self.expr(kw.value)
-            want = MSG_FIELDS[kw.arg][1]
+        for arg, value in given:
+            if arg not in vals:
+                raise Untranslatable(f"Message(...) keyword {arg}")
+            p, t, ty = self.expr(value)
+            want = MSG_FIELDS[arg][1]
             if ty != want:
-                raise Untranslatable(f"Message({kw.arg}=<{ty}>)")
+                raise Untranslatable(f"Message({arg}=<{ty}>)")
             pre += p
-            vals[kw.arg] = t
+            vals[arg] = t
         order = ["node_id", "child_id", "command", "ack", "message_type", "payload"]
         if names != order:
             raise Untranslatable("Message signature changed")
@@ -379,15 +414,29 @@ class Tr:
         a0, a1, a2 = node.args
         if not (isinstance(a0, ast.Name) and a0.id == "cls" and isinstance(a2, ast.Constant) and a2.value is None):
             raise Untranslatable("getattr shape")
-        if not (isinstance(a1, ast.JoinedStr) and len(a1.values) == 2 and isinstance(a1.values[0], ast.Constant)
-                and a1.values[0].value == "handle_" and isinstance(a1.values[1], ast.FormattedValue)):
-            raise Untranslatable("getattr name")
-        pre, t, ty = self.expr(a1.values[1].value)
-        if not (isinstance(ty, tuple) and ty[0] == "enumlower"):
-            raise Untranslatable("getattr name is not <member>.name.lower()")
+        pre, t, ty = self.handler_name(a1)
         table = "Gen.internalChains" if ty[1] == "Internal" else "Gen.streamChains"
         self.uses_v = True
         return pre, f"((({table} v).lookup {ty[2]}).join)", "handler"
+
+    def handler_name(self, a1):
+        """f"handle_{member.name.lower()}" / "handle_" + member.name.lower() / a local holding either -> the member"""
+        if isinstance(a1, ast.Name) and a1.id in self.env and isinstance(self.env[a1.id][1], tuple) \
+                and self.env[a1.id][1][0] == "enumlower":
+            return [], *self.env[a1.id]
+        if isinstance(a1, ast.JoinedStr) and len(a1.values) == 2 and isinstance(a1.values[0], ast.Constant) \
+                and a1.values[0].value == "handle_" and isinstance(a1.values[1], ast.FormattedValue) \
+                and a1.values[1].conversion == -1 and a1.values[1].format_spec is None:
+            inner = a1.values[1].value
+        elif isinstance(a1, ast.BinOp) and isinstance(a1.op, ast.Add) and isinstance(a1.left, ast.Constant) \
+                and a1.left.value == "handle_":
+            inner = a1.right
+        else:
+            raise Untranslatable("getattr name")
+        pre, t, ty = self.expr(inner)
+        if not (isinstance(ty, tuple) and ty[0] == "enumlower"):
+            raise Untranslatable("getattr name is not <member>.name.lower()")
+        return pre, t, ty
 
     def compare(self, node: ast.Compare):
         if len(node.ops) == 1:
@@ -447,6 +496,10 @@ class Tr:
         if isinstance(node.op, ast.And):
             # `... and x and x.attr`: after an Optional local was tested, the name denotes its value
             for i, v in enumerate(node.values[:-1]):
+                if isinstance(v, ast.Compare) and len(v.ops) == 1 and isinstance(v.ops[0], ast.IsNot) \
+                        and isinstance(v.left, ast.Name) and isinstance(v.comparators[0], ast.Constant) \
+                        and v.comparators[0].value is None:
+                    v = v.left          # `x is not None and …` narrows like `x and …` for an Optional local
                 if isinstance(v, ast.Name) and v.id in self.env and isinstance(self.env[v.id][1], tuple) \
                         and self.env[v.id][1][0] == "opt":
                     t, ty = self.env[v.id]
@@ -473,11 +526,40 @@ class Tr:
     def ret_default(self) -> str:
         return "(pure m)" if self.kind == "msg" else "(pure ())"
 
+    @staticmethod
+    def leading_walrus(test):
+        """The assignment expression that is evaluated before anything else in `test`, if there is one."""
+        cur = test
+        while True:
+            if isinstance(cur, ast.NamedExpr) and isinstance(cur.target, ast.Name):
+                return cur
+            if isinstance(cur, ast.UnaryOp) and isinstance(cur.op, ast.Not):
+                cur = cur.operand
+            elif isinstance(cur, ast.Compare):
+                cur = cur.left
+            elif isinstance(cur, ast.BoolOp):
+                cur = cur.values[0]
+            else:
+                return None
+
+    @staticmethod
+    def replace_node(tree, old, new):
+        import copy
+
+        class R(ast.NodeTransformer):
+            def visit(self, node):
+                if node is old:
+                    return new
+                return self.generic_visit(node)
+        return R().visit(copy.copy(tree)) if tree is not old else new
+
     def terminates(self, stmts) -> bool:
         if not stmts:
             return False
         s = stmts[-1]
         if isinstance(s, (ast.Return, ast.Raise)):
+            return True
+        if isinstance(s, ast.Continue) and self.in_loop:
             return True
         if isinstance(s, ast.If):
             return self.terminates(s.body) and self.terminates(s.orelse)
@@ -492,6 +574,26 @@ class Tr:
                 raise Untranslatable("block falls off its end")
             return fallthrough
         s, rest = stmts[0], stmts[1:]
+        # `if (x := E) …:` with the walrus in the position evaluated first  ==  `x = E` then `if x …:`
+        if isinstance(s, ast.If):
+            w = self.leading_walrus(s.test)
+            if w is not None:
+                test2 = self.replace_node(s.test, w, ast.Name(id=w.target.id, ctx=ast.Load()))
+                s2 = ast.If(test=test2, body=s.body, orelse=s.orelse)
+                return self.block([ast.Assign(targets=[ast.Name(id=w.target.id, ctx=ast.Store())], value=w.value), s2] + list(rest),
+                                  fallthrough)
+        # `if C: x = A else: x = B`  ==  `x = A if C else B`
+        if isinstance(s, ast.If) and len(strip(s.body)) == 1 and len(strip(s.orelse)) == 1:
+            b1, b2 = strip(s.body)[0], strip(s.orelse)[0]
+            if isinstance(b1, ast.Assign) and isinstance(b2, ast.Assign) and len(b1.targets) == 1 and len(b2.targets) == 1 \
+                    and isinstance(b1.targets[0], ast.Name) and isinstance(b2.targets[0], ast.Name) \
+                    and b1.targets[0].id == b2.targets[0].id and b1.targets[0].id != "message":
+                cond = ast.IfExp(test=s.test, body=b1.value, orelse=b2.value)
+                return self.block([ast.Assign(targets=[b1.targets[0]], value=cond)] + list(rest), fallthrough)
+        if isinstance(s, ast.Continue) and self.in_loop:
+            if rest:
+                raise Untranslatable("code after continue")
+            return "(pure ())"
 
         def after(unit_term: str) -> str:
             """unit_term : M Unit, then the rest"""
@@ -516,10 +618,11 @@ class Tr:
             name = s.test.left.id
             t, ty = self.env[name]
             saved = dict(self.env)
-            self.env[name] = (name, ty[1])
+            ln = lean_ident(name)
+            self.env[name] = self.narrowed(name, ln, ty)
             a = " ".join(self.block(s.body, "(pure ())").split())   # one line: match arms are column-sensitive
             self.env = saved
-            return after(f"(match {t} with | some {name} => {a} | none => pure ())")
+            return after(f"(match {t} with | some {ln} => {a} | none => pure ())")
         if isinstance(s, ast.If) and isinstance(s.test, ast.Compare) and len(s.test.ops) == 1 \
                 and isinstance(s.test.ops[0], ast.Is) and isinstance(s.test.left, ast.Name) \
                 and isinstance(s.test.comparators[0], ast.Constant) and s.test.comparators[0].value is None \
@@ -531,10 +634,11 @@ class Tr:
             saved = dict(self.env)
             a = " ".join(self.block(s.body, None).split())
             self.env = dict(saved)
-            self.env[name] = (name, ty[1])
+            ln = lean_ident(name)
+            self.env[name] = self.narrowed(name, ln, ty)
             b = " ".join(self.block(rest, fallthrough).split())
             self.env = saved
-            return f"(match {t} with | none => {a} | some {name} => {b})"
+            return f"(match {t} with | none => {a} | some {ln} => {b})"
         if isinstance(s, ast.If):
             pre, c, _ = self.truth(s.test)
             saved = dict(self.env)
@@ -573,6 +677,13 @@ class Tr:
         if isinstance(s, ast.AnnAssign) and s.value is not None:
             return self.assign(s.target, s.value, rest, fallthrough, after)
         raise Untranslatable(f"statement {type(s).__name__}")
+
+    def narrowed(self, name: str, ln: str, ty):
+        """What an Optional local denotes once it was tested against None: its value — or, when it came from
+        `gateway.nodes.get(K)`, the node object registered under K (found by its key, like `alias = gateway.nodes[K]`)."""
+        if ty[1] == "node" and name in self.optkey:
+            return ("<alias>", ("nodealias", self.optkey[name]))
+        return (ln, ty[1])
 
     def assigns_message(self, stmts) -> bool:
         return any(isinstance(x, ast.Assign) and len(x.targets) == 1 and isinstance(x.targets[0], ast.Name)
@@ -658,7 +769,10 @@ class Tr:
                         flag = "true" if kw.value.value else "false"
                     return self.wrap(pre, f"GenBodies.gwSend' {t} {flag}")
                 # await gateway.transport.write(decoded_message)
-                if f.attr == "write" and isinstance(f.value, ast.Attribute) and f.value.attr == "transport" \
+                is_transport = (isinstance(f.value, ast.Attribute) and f.value.attr == "transport"
+                                and isinstance(f.value.value, ast.Name) and self.env.get(f.value.value.id, ("", ""))[1] == "gateway") \
+                    or (isinstance(f.value, ast.Name) and self.env.get(f.value.id, ("", ""))[1] == "transport")
+                if f.attr == "write" and is_transport and not call.keywords \
                         and len(call.args) == 1 and isinstance(call.args[0], ast.Name) and call.args[0].id == "decoded_message":
                     return f"(transportWrite (encode {self.env['message'][0]}))"
             raise Untranslatable(f"await {ast.unparse(call)[:50]}")
@@ -694,6 +808,13 @@ class Tr:
                 pk, k, kt = self.expr(node.args[0])
                 if bd and kt == "key" and not pk:
                     return f"(Lit.{bd}Pop {k})"
+            # message_buffer.internal_messages.pop(key, None): remove it if it is there
+            if f.attr == "pop" and len(node.args) == 2 and isinstance(node.args[1], ast.Constant) and node.args[1].value is None \
+                    and not node.keywords and self.buffer_dict(f.value) == "ibuf":
+                pk, k, kt = self.expr(node.args[0])
+                if kt == "key" and not pk:
+                    c = self.fresh("c")
+                    return f"(bind (Lit.ibufHas {k}) fun {c} => if {c} then (Lit.ibufPop {k}) else (pure ()))"
             # self._message_schema.set_protocol(protocol): the schema follows the active protocol in the model
             if f.attr == "set_protocol" and isinstance(f.value, ast.Attribute) and f.value.attr == "_message_schema":
                 return "(pure ())"
@@ -766,11 +887,23 @@ class Tr:
                     raise Untranslatable("alias of gateway.nodes[effect]")
                 self.env[name] = ("<alias>", ("nodealias", k))
                 return f"(bind (Lit.nodeAt {k}) fun _ =>\n  {self.block(rest, fallthrough)})"
+            # transport = gateway.transport
+            if isinstance(value, ast.Attribute) and value.attr == "transport" and isinstance(value.value, ast.Name) \
+                    and self.env.get(value.value.id, ("", ""))[1] == "gateway":
+                self.env[name] = ("<transport>", "transport")
+                return self.block(rest, fallthrough)
             pre, t, ty = self.expr(value)
+            if ty == ("opt", "node") and isinstance(value, ast.Call) and isinstance(value.func, ast.Attribute) \
+                    and value.func.attr == "get" and self.is_gateway_nodes(value.func.value) and len(value.args) == 1:
+                pk, k, kt = self.expr(value.args[0])
+                if not pk:
+                    self.optkey[name] = k
+            else:
+                self.optkey.pop(name, None)
             if isinstance(ty, tuple) and ty[0] == "exc":
                 raise Untranslatable("conversion outside try/except")
             if ty == "msg":
-                v = name
+                v = lean_ident(name)
                 self.env[name] = (v, "msg")
                 return self.wrap(pre, f"let {v} : Msg := {t};\n  {self.block(rest, fallthrough)}")
             if isinstance(ty, tuple) and ty[0] == "opt" and ty[1] == "str":
@@ -848,8 +981,9 @@ class Tr:
                 pre, t, ty = self.expr(st.value)
                 name = st.targets[0].id
                 if isinstance(ty, tuple) and ty[0] == "exc" and not pre:
-                    self.env[name] = (name, ty[1])
-                    return f"(bind (convertExn {cl} {LIB_ERR_CTOR[ename]} {t}) fun {name} =>\n  {self.block(rest, fallthrough)})"
+                    ln = lean_ident(name)
+                    self.env[name] = (ln, ty[1])
+                    return f"(bind (convertExn {cl} {LIB_ERR_CTOR[ename]} {t}) fun {ln} =>\n  {self.block(rest, fallthrough)})"
                 if isinstance(ty, tuple) and ty[0] == "enum" and len(pre) == 1:
                     v, m = pre[0]
                     self.env[name] = (v, ty)
@@ -870,6 +1004,10 @@ class Tr:
         if s.orelse or not isinstance(s.target, ast.Tuple) or len(s.target.elts) != 2:
             raise Untranslatable("for loop shape")
         it = s.iter
+        # list(d.items()) / tuple(d.items()): the same items in the same order (the snapshot is not mutated by the body)
+        if isinstance(it, ast.Call) and isinstance(it.func, ast.Name) and it.func.id in ("list", "tuple") and len(it.args) == 1 \
+                and not it.keywords:
+            it = it.args[0]
         if not (isinstance(it, ast.Call) and isinstance(it.func, ast.Attribute) and it.func.attr == "items"
                 and isinstance(it.func.value, ast.Name) and it.func.value.id in self.env
                 and self.env[it.func.value.id][1] == "snapshot"):
@@ -878,10 +1016,10 @@ class Tr:
         saved = dict(self.env)
         self.env[k] = ("kb.1", "key")
         self.env[b] = ("kb.2", "msg")
-        saved_kind = self.kind
-        self.kind = "unit"
+        saved_kind, saved_loop = self.kind, self.in_loop
+        self.kind, self.in_loop = "loop", True
         body = self.block(s.body, "(pure ())")
-        self.kind = saved_kind
+        self.kind, self.in_loop = saved_kind, saved_loop
         self.env = saved
         return f"(Lit.forEach {self.env[it.func.value.id][0]} fun kb =>\n  {body})"
 
@@ -929,14 +1067,15 @@ class TrFlush(Tr):
                     if pre:
                         raise Untranslatable("effectful comprehension filter")
                 self.env = saved
-                v = target.id
-                self.env[v] = (v, "snapshot")
+                v = lean_ident(target.id)
+                self.env[target.id] = (v, "snapshot")
                 return f"(bind (Lit.sbufSnapshot fun kb => {cond}) fun {v} =>\n  {self.block(rest, fallthrough)})"
         return super().assign(target, value, rest, fallthrough, after)
 
     def compare(self, node):
         # message_buffer.set_messages.get(key) is buffer_message
-        if len(node.ops) == 1 and isinstance(node.ops[0], ast.Is):
+        if len(node.ops) == 1 and isinstance(node.ops[0], (ast.Is, ast.IsNot)):
+            neg = isinstance(node.ops[0], ast.IsNot)
             l, r = node.left, node.comparators[0]
             if isinstance(l, ast.Call) and isinstance(l.func, ast.Attribute) and l.func.attr == "get" \
                     and self.buffer_dict(l.func.value) == "sbuf" and len(l.args) == 1:
@@ -944,7 +1083,7 @@ class TrFlush(Tr):
                 pr, rt, rty = self.expr(r)
                 if kt == "key" and rty == "msg" and not pk and not pr:
                     v = self.fresh("c")
-                    return [(v, f"(Lit.sbufHolds {k} {rt})")], v, "bool"
+                    return [(v, f"(Lit.sbufHolds {k} {rt})")], (f"(!{v})" if neg else v), "bool"
         return super().compare(node)
 
 
@@ -964,15 +1103,41 @@ def compile_node_method(fn, params):
     def is_self_children(e):
         return isinstance(e, ast.Attribute) and e.attr == "children" and isinstance(e.value, ast.Name) and e.value.id == "self"
 
+    new_children = {}       # local -> lean text of a freshly built Child
+
+    def new_child(v):
+        """Child(k, t, description=d, values=values) -> (lean text of the key, lean text of the child)"""
+        if not (isinstance(v, ast.Call) and isinstance(v.func, ast.Name) and v.func.id == "Child" and glob.get("Child") is not None):
+            return None
+        sig = inspect.signature(glob["Child"].__init__)
+        try:
+            bound = sig.bind(None, *v.args, **{k.arg: k.value for k in v.keywords})
+        except TypeError as err:
+            raise Untranslatable(f"Child(...) arguments: {err}") from err
+        a = bound.arguments
+        vals = a.get("values")
+        if vals is not None and not (isinstance(vals, ast.Name) and vals.id == "values" and params.get("values") == "<none>"):
+            raise Untranslatable("Child(values=...) with other than the method's default")
+        desc = ex(a["description"]) if "description" in a else lean_str("")
+        return f"(Lit.newChild {ex(a['child_id'])} {ex(a['child_type'])} {desc})"
+
+    def absent_test(t):
+        """`k not in self.children` / `not k in self.children` -> k"""
+        if isinstance(t, ast.UnaryOp) and isinstance(t.op, ast.Not) and isinstance(t.operand, ast.Compare) \
+                and len(t.operand.ops) == 1 and isinstance(t.operand.ops[0], ast.In) and is_self_children(t.operand.comparators[0]):
+            return t.operand.left
+        if isinstance(t, ast.Compare) and len(t.ops) == 1 and isinstance(t.ops[0], ast.NotIn) and is_self_children(t.comparators[0]):
+            return t.left
+        return None
+
     def go(i, cur):
         """cur: lean text of the current node value"""
         if i == len(stmts):
             return f".ok {cur}"
         s = stmts[i]
         if isinstance(s, ast.If) and not s.orelse and len(s.body) == 1 and isinstance(s.body[0], ast.Raise) \
-                and isinstance(s.test, ast.Compare) and len(s.test.ops) == 1 and isinstance(s.test.ops[0], ast.NotIn) \
-                and is_self_children(s.test.comparators[0]):
-            k = ex(s.test.left)
+                and absent_test(s.test) is not None:
+            k = ex(absent_test(s.test))
             r = s.body[0].exc
             if not (isinstance(r, ast.Call) and isinstance(r.func, ast.Name) and r.func.id == "MissingChildError"
                     and glob.get("MissingChildError") is not None and len(r.args) == 1):
@@ -987,6 +1152,21 @@ def compile_node_method(fn, params):
                 var = f"ch{i}"
                 env[t.id] = var
                 return f"match Lit.childAt {cur} {k} with\n    | .error e => .error e\n    | .ok {var} => {go(i + 1, cur)}"
+            # self.children[k].values[a] = b   (no local alias)
+            if isinstance(t, ast.Subscript) and isinstance(t.value, ast.Attribute) and t.value.attr == "values" \
+                    and isinstance(t.value.value, ast.Subscript) and is_self_children(t.value.value.value):
+                k = ex(t.value.value.slice)
+                var = f"ch{i}"
+                new = f"{{ {cur} with children := {cur}.children.set {k} {{ {var} with values := {var}.values.set {ex(t.slice)} {ex(v)} }} }}"
+                return f"match Lit.childAt {cur} {k} with\n    | .error e => .error e\n    | .ok {var} => {go(i + 1, new)}"
+            # child = Child(...)   (a local for the new child)
+            if isinstance(t, ast.Name) and new_child(v) is not None:
+                new_children[t.id] = new_child(v)
+                return go(i + 1, cur)
+            # self.children[k] = child   (that local)
+            if isinstance(t, ast.Subscript) and is_self_children(t.value) and isinstance(v, ast.Name) and v.id in new_children:
+                new = f"{{ {cur} with children := {cur}.children.set {ex(t.slice)} {new_children[v.id]} }}"
+                return go(i + 1, new)
             # child.values[a] = b
             if isinstance(t, ast.Subscript) and isinstance(t.value, ast.Attribute) and t.value.attr == "values" \
                     and isinstance(t.value.value, ast.Name) and t.value.value.id in aliases:
@@ -996,16 +1176,8 @@ def compile_node_method(fn, params):
                 new = f"{{ {cur} with children := {cur}.children.set {k} {{ {var} with values := {var}.values.set {ex(t.slice)} {ex(v)} }} }}"
                 return go(i + 1, new)
             # self.children[k] = Child(k, t, description=d, values=values)
-            if isinstance(t, ast.Subscript) and is_self_children(t.value) and isinstance(v, ast.Call) \
-                    and isinstance(v.func, ast.Name) and v.func.id == "Child" and glob.get("Child") is not None:
-                sig = inspect.signature(glob["Child"].__init__)
-                bound = sig.bind(None, *v.args, **{k.arg: k.value for k in v.keywords})
-                a = bound.arguments
-                vals = a.get("values")
-                if vals is not None and not (isinstance(vals, ast.Name) and vals.id == "values" and params.get("values") == "<none>"):
-                    raise Untranslatable("Child(values=...) with other than the method's default")
-                desc = ex(a["description"]) if "description" in a else lean_str("")
-                new = f"{{ {cur} with children := {cur}.children.set {ex(t.slice)} (Lit.newChild {ex(a['child_id'])} {ex(a['child_type'])} {desc}) }}"
+            if isinstance(t, ast.Subscript) and is_self_children(t.value) and new_child(v) is not None:
+                new = f"{{ {cur} with children := {cur}.children.set {ex(t.slice)} {new_child(v)} }}"
                 return go(i + 1, new)
         raise Untranslatable(f"node method statement {ast.unparse(s)[:50]}")
 
@@ -1175,6 +1347,11 @@ class TrStream:
     def is_self_attr(self, node, attr) -> bool:
         return isinstance(node, ast.Attribute) and node.attr == attr and isinstance(node.value, ast.Name) and node.value.id == "self"
 
+    @staticmethod
+    def is_encode(a) -> bool:
+        return (isinstance(a, ast.Call) and isinstance(a.func, ast.Attribute) and a.func.attr == "encode" and not a.args
+                and not a.keywords and isinstance(a.func.value, ast.Name) and a.func.value.id == "decoded_message")
+
     def exc_name(self, node) -> str:
         if isinstance(node, ast.Name):
             name = node.id
@@ -1226,14 +1403,13 @@ class TrStream:
                     return "(LS.drain fault)"
                 if c.func.attr == "write" and not aw and len(c.args) == 1:
                     a = c.args[0]
-                    if isinstance(a, ast.Call) and isinstance(a.func, ast.Attribute) and a.func.attr == "encode" and not a.args \
-                            and not a.keywords and isinstance(a.func.value, ast.Name) and a.func.value.id == "decoded_message":
+                    if self.is_encode(a) or (isinstance(a, ast.Name) and self.env.get(a.id) == "encoded"):
                         return "(LS.writerWrite line fault)"
         # return name.decode()
         if isinstance(st, ast.Return) and isinstance(st.value, ast.Call) and isinstance(st.value.func, ast.Attribute) \
                 and st.value.func.attr == "decode" and not st.value.args and not st.value.keywords \
                 and isinstance(st.value.func.value, ast.Name) and self.env.get(st.value.func.value.id) == "bytes":
-            return ("ret", f"(LS.decode decodeUtf8 {st.value.func.value.id})")
+            return ("ret", f"(LS.decode decodeUtf8 {lean_ident(st.value.func.value.id)})")
         raise Untranslatable(f"stream statement {ast.unparse(st)[:60]}")
 
     def try_(self, st: ast.Try, rest) -> str:
@@ -1284,7 +1460,7 @@ class TrStream:
                 raise Untranslatable("code after return")
             return term
         if bound:
-            return f"(TM.bind {term} fun {bound} =>\n  {self.block(rest)})"
+            return f"(TM.bind {term} fun {lean_ident(bound)} =>\n  {self.block(rest)})"
         if not rest:
             return term
         return f"(TM.seq {term}\n  {self.block(rest)})"
@@ -1294,6 +1470,27 @@ class TrStream:
         if not stmts:
             return "(TM.pure ())"
         st, rest = stmts[0], stmts[1:]
+        # `if self.writer is not None: BODY` as the last statement  ==  `if self.writer is None: return` then BODY
+        if isinstance(st, ast.If) and not st.orelse and not rest and isinstance(st.test, ast.Compare) and len(st.test.ops) == 1 \
+                and isinstance(st.test.ops[0], ast.IsNot) and isinstance(st.test.comparators[0], ast.Constant) \
+                and st.test.comparators[0].value is None:
+            guard = ast.If(test=ast.Compare(left=st.test.left, ops=[ast.Is()], comparators=st.test.comparators),
+                           body=[ast.Return(value=None)], orelse=[])
+            return self.block([guard] + list(st.body))
+        # `with contextlib.suppress(classes): BODY`  ==  `try: BODY except (classes): pass`
+        if isinstance(st, ast.With) and len(st.items) == 1 and st.items[0].optional_vars is None:
+            ce = st.items[0].context_expr
+            if isinstance(ce, ast.Call) and not ce.keywords and ce.args and (
+                    (isinstance(ce.func, ast.Attribute) and ce.func.attr == "suppress" and isinstance(ce.func.value, ast.Name)
+                     and ce.func.value.id == "contextlib")
+                    or (isinstance(ce.func, ast.Name) and ce.func.id == "suppress"
+                        and getattr(self.globals.get("suppress"), "__module__", None) == "contextlib")):
+                h = ast.ExceptHandler(type=ast.Tuple(elts=list(ce.args), ctx=ast.Load()), name=None, body=[ast.Pass()])
+                return self.block([ast.Try(body=st.body, handlers=[h], orelse=[], finalbody=[])] + list(rest))
+        # data = decoded_message.encode()   (hoisted out of the call; str.encode of the line cannot raise an OSError)
+        if isinstance(st, ast.Assign) and len(st.targets) == 1 and isinstance(st.targets[0], ast.Name) and self.is_encode(st.value):
+            self.env[st.targets[0].id] = "encoded"
+            return self.block(rest)
         if isinstance(st, ast.If) and not st.orelse and isinstance(st.test, ast.Compare) and len(st.test.ops) == 1 \
                 and isinstance(st.test.ops[0], ast.Is) and isinstance(st.test.comparators[0], ast.Constant) \
                 and st.test.comparators[0].value is None and len(strip(st.body)) == 1:
@@ -1374,6 +1571,15 @@ class TrCodec:
         return f"{b}{self.n}"
 
     def const(self, node):
+        import types
+        val = None
+        # <module alias>.CONSTANT
+        if isinstance(node, ast.Attribute) and isinstance(node.value, ast.Name) and node.value.id not in self.env \
+                and isinstance(self.globals.get(node.value.id), types.ModuleType):
+            val = getattr(self.globals[node.value.id], node.attr, None)
+            if isinstance(val, int) and not isinstance(val, bool):
+                return lean_int(int(val)), "int"
+            return None
         if isinstance(node, ast.Name) and node.id not in self.env and node.id in self.globals:
             val = self.globals[node.id]
             if isinstance(val, bool):
@@ -1663,10 +1869,18 @@ def translate_codec(repo: str):
         fn = mod.MessageSchema.__dict__["to_dict"]
         fn = getattr(fn, "__wrapped__", fn)
         stmts = strip(fn_ast(fn).body)
-        want = ["list_data = in_data.rstrip().split(DELIMITER, len(self.fields) - 1)",
-                "return dict(zip(self.fields, list_data, strict=False))"]
-        got = [ast.unparse(s) for s in stmts]
-        if got != want:
+        keep = ("self", "in_data", "data", "DELIMITER")
+        spellings = [
+            "def f():\n    list_data = in_data.rstrip().split(DELIMITER, len(self.fields) - 1)\n"
+            "    return dict(zip(self.fields, list_data, strict=False))",
+            "def f():\n    n = len(self.fields) - 1\n    list_data = in_data.rstrip().split(DELIMITER, n)\n"
+            "    return dict(zip(self.fields, list_data, strict=False))",
+            "def f():\n    return dict(zip(self.fields, in_data.rstrip().split(DELIMITER, len(self.fields) - 1), strict=False))",
+            "def f():\n    text = in_data.rstrip()\n    list_data = text.split(DELIMITER, len(self.fields) - 1)\n"
+            "    return dict(zip(self.fields, list_data, strict=False))",
+        ]
+        got = alpha(stmts, keep)
+        if got not in [alpha_src(x, keep) for x in spellings]:
             raise Untranslatable("to_dict is not `rstrip().split(DELIMITER, len(fields) - 1)` zipped with the field names: " + " / ".join(got)[:160])
         if mod.DELIMITER != ";":
             raise Untranslatable("DELIMITER changed")
@@ -1680,13 +1894,23 @@ def translate_codec(repo: str):
         fn = getattr(fn, "__wrapped__", fn)
         stmts = strip(fn_ast(fn).body)
         got = [ast.unparse(x) for x in stmts]
-        expected_src = ('try:\n'
-                        '    string = f"{DELIMITER.join([str(data[field]) for field in self.fields])}\\n"\n'
-                        'except KeyError as err:\n'
-                        '    raise ValidationError("Not a valid Message instance") from err\n'
-                        'return string\n')
-        want = [ast.unparse(x) for x in ast.parse(expected_src).body]
-        if got != want:
+        keep = ("self", "in_data", "data", "DELIMITER")
+        spellings = []
+        for elems in ("[str(data[field]) for field in self.fields]", "(str(data[field]) for field in self.fields)",
+                      "str(data[field]) for field in self.fields"):
+            for whole in ('f"{DELIMITER.join(ELEMS)}\\n"', 'DELIMITER.join(ELEMS) + "\\n"'):
+                e = whole.replace("ELEMS", elems)
+                spellings.append("def f():\n    try:\n        string = " + e + "\n    except KeyError as err:\n"
+                                 "        raise ValidationError('Not a valid Message instance') from err\n    return string")
+                spellings.append("def f():\n    try:\n        return " + e + "\n    except KeyError as err:\n"
+                                 "        raise ValidationError('Not a valid Message instance') from err")
+        want_all = []
+        for x in spellings:
+            try:
+                want_all.append(alpha_src(x, keep))
+            except SyntaxError:
+                pass
+        if alpha(stmts, keep) not in want_all:
             raise Untranslatable("to_string is not the delimiter-join of str(data[field]) over the fields plus a newline, with KeyError -> "
                                  "ValidationError: " + " / ".join(got)[:200])
         if mod.DELIMITER != ";":
@@ -1766,6 +1990,25 @@ class TrMqtt:
             b, t, ty = self.expr(node.value)
             if ty == "list":
                 return b, f"(LMq.lastN {node.slice.lower.operand.value} {t})", "list"
+        # a + b on two strings or two lists
+        if isinstance(node, ast.BinOp) and isinstance(node.op, ast.Add):
+            b1, t1, ty1 = self.expr(node.left)
+            b2, t2, ty2 = self.expr(node.right)
+            if ty1 == ty2 and ty1 in ("str", "list"):
+                return b1 + b2, f"({t1} ++ {t2})", ty1
+            raise Untranslatable("+ on other than two strings or two lists")
+        if isinstance(node, ast.Constant) and isinstance(node.value, str):
+            return [], lean_str(node.value), "str"
+        # [a, b]
+        if isinstance(node, ast.List) and not any(isinstance(e, ast.Starred) for e in node.elts):
+            binds, texts = [], []
+            for e in node.elts:
+                b, t, ty = self.expr(e)
+                if ty != "str":
+                    raise Untranslatable("list of non-strings")
+                binds += b
+                texts.append(t)
+            return binds, "[" + ", ".join(texts) + "]", "list"
         # f"{a}/{b}"
         if isinstance(node, ast.JoinedStr):
             parts, binds = [], []
@@ -1915,6 +2158,97 @@ def _raises(stmts, cls: str) -> bool:
     return isinstance(e, ast.Call) and isinstance(e.func, ast.Name) and e.func.id == cls
 
 
+def alpha(stmts, keep=()):
+    """The statements as text, with every local (assignment / `for` / `with … as` / `except … as` target) renamed to
+    `_L<n>` in order of first binding and constant keyword arguments sorted by name: two bodies that differ only in the
+    names of their locals, or in the order of keyword arguments whose values are literals, have the same text."""
+    names = {}
+
+    def bind(n):
+        if n not in names and n not in keep:
+            names[n] = f"_L{len(names)}"
+
+    class Collect(ast.NodeVisitor):
+        def visit_Name(self, node):
+            if isinstance(node.ctx, ast.Store):
+                bind(node.id)
+
+        def visit_ExceptHandler(self, node):
+            self.generic_visit(node)
+            if node.name:
+                bind(node.name)
+
+    class Rename(ast.NodeTransformer):
+        def visit_Name(self, node):
+            return ast.copy_location(ast.Name(id=names.get(node.id, node.id), ctx=node.ctx), node)
+
+        def visit_ExceptHandler(self, node):
+            self.generic_visit(node)
+            if node.name:
+                node.name = names.get(node.name, node.name)
+            return node
+
+        def visit_Call(self, node):
+            self.generic_visit(node)
+            if node.keywords and all(k.arg is not None and isinstance(k.value, ast.Constant) for k in node.keywords):
+                node.keywords = sorted(node.keywords, key=lambda k: k.arg)
+            return node
+
+    import copy
+    stmts = [copy.deepcopy(x) for x in stmts]
+    for x in stmts:
+        Collect().visit(x)
+    return [ast.unparse(ast.fix_missing_locations(Rename().visit(x))) for x in stmts]
+
+
+def alpha_src(src: str, keep=()):
+    return alpha(strip(ast.parse(textwrap.dedent(src)).body[0].body), keep)
+
+
+LOAD_SHAPE = """
+def load(self, path=None):
+    path = path or self.path
+    try:
+        async with aiofiles.open(path) as fil:
+            read = await fil.read()
+        data: dict = json.loads(read or "{}")
+    except X:
+        pass
+    node_schema = NodeSchema()
+    try:
+        for node_data in data.values():
+            node: Node = node_schema.load(node_data)
+            self.nodes[node.node_id] = node
+    except X:
+        pass
+"""
+SAVE_SHAPE = """
+def save(self):
+    data = {}
+    node_schema = NodeSchema()
+    for node in self.nodes.values():
+        data[node.node_id] = node_schema.dump(node)
+    try:
+        async with aiofiles.open(self.path, mode="w") as fil:
+            await fil.write(json.dumps(data, sort_keys=True, indent=2))
+    except X:
+        pass
+"""
+
+
+def _no_handlers(stmts):
+    """The statements with the handlers of every `try` removed (they are read separately)."""
+    import copy
+    out = []
+    for x in stmts:
+        x = copy.deepcopy(x)
+        for t in ast.walk(x):
+            if isinstance(t, ast.Try):
+                t.handlers = [ast.ExceptHandler(type=ast.Name(id="X", ctx=ast.Load()), name=None, body=[ast.Pass()])]
+        out.append(x)
+    return out
+
+
 def translate_persist(repo: str):
     sys.path.insert(0, os.path.join(repo, "src"))
     mod = importlib.import_module("aiomysensors.persistence")
@@ -1923,15 +2257,14 @@ def translate_persist(repo: str):
     try:
         fn = mod.Persistence.__dict__["load"]
         st = strip(fn_ast(fn).body)
-        u = [ast.unparse(x) for x in st]
-        if not (len(st) == 4 and u[0] == "path = path or self.path" and isinstance(st[1], ast.Try)
-                and u[2] == "node_schema = NodeSchema()" and isinstance(st[3], ast.Try)):
-            raise Untranslatable("load is not: path default / try read+parse / schema / try restore")
+        # the statements outside the handlers, up to the names of the locals
+        got = alpha(_no_handlers(st), keep=("path", "self"))
+        want = alpha_src(LOAD_SHAPE, keep=("path", "self"))
+        if got != want or not (len(st) == 4 and isinstance(st[1], ast.Try) and isinstance(st[3], ast.Try)):
+            raise Untranslatable("load is not: path default / try read+parse / schema / try restore: " + " / ".join(got)[:200])
         t1, t2 = st[1], st[3]
-        b1 = [ast.unparse(x) for x in strip(t1.body)]
-        if b1 != ["async with aiofiles.open(path) as fil:\n    read = await fil.read()", "data: dict = json.loads(read or '{}')"] \
-                or t1.orelse or t1.finalbody:
-            raise Untranslatable("first try of load: " + " / ".join(b1)[:200])
+        if t1.orelse or t1.finalbody or t2.orelse or t2.finalbody:
+            raise Untranslatable("try … else / finally in load")
         clauses = []
         for h in t1.handlers:
             hb = [ast.unparse(x) for x in strip(h.body)]
@@ -1942,39 +2275,40 @@ def translate_persist(repo: str):
             else:
                 raise Untranslatable("handler of the first try of load: " + " / ".join(hb)[:160])
             clauses.append(f"({_classes(h, fn.__globals__)}, {act})")
-        b2 = [ast.unparse(x) for x in strip(t2.body)]
-        if b2 != ["for node_data in data.values():\n    node: Node = node_schema.load(node_data)\n    self.nodes[node.node_id] = node"] \
-                or t2.orelse or t2.finalbody or len(t2.handlers) != 1 or not _raises(t2.handlers[0].body, "PersistenceReadError"):
-            raise Untranslatable("second try of load: " + " / ".join(b2)[:200])
-        out["load"] = {"lean": "def load (cur : PDict Int Node) (fs : Persist.FileState) : Except Persist.Exn Persist.Loaded :=\n"
-                               f"  LP.tryRead cur (LP.openReadParse fs) [{', '.join(clauses)}] fun data =>\n"
-                               f"  LP.catchRead (LP.loadEach cur data) {_classes(t2.handlers[0], fn.__globals__)}"}
+        if len(t2.handlers) != 1 or not _raises(t2.handlers[0].body, "PersistenceReadError"):
+            raise Untranslatable("handlers of the second try of load")
+        out["load"] = {"lean": "def loadClauses : List (List PyExn × LP.ReadAction) := [" + ", ".join(clauses) + "]\n\n"
+                               f"def loadRestoreClasses : List PyExn := {_classes(t2.handlers[0], fn.__globals__)}\n\n"
+                               "def load (cur : PDict Int Node) (fs : Persist.FileState) : Except Persist.Exn Persist.Loaded :=\n"
+                               "  LP.tryRead cur (LP.openReadParse fs) loadClauses fun data =>\n"
+                               "  LP.catchRead (LP.loadEach cur data) loadRestoreClasses"}
     except (Untranslatable, KeyError, TypeError, OSError, AttributeError, IndexError) as err:
         out["load"] = {"error": f"{type(err).__name__}: {err}"[:300]}
     # ---- save
     try:
         fn = mod.Persistence.__dict__["save"]
         st = strip(fn_ast(fn).body)
-        u = [ast.unparse(x) for x in st]
-        want_head = ["data = {}", "node_schema = NodeSchema()",
-                     "for node in self.nodes.values():\n    data[node.node_id] = node_schema.dump(node)"]
-        if u[:3] != want_head or len(st) != 4 or not isinstance(st[3], ast.Try):
-            raise Untranslatable("save does not start by dumping every node into a dict, then one try: " + " / ".join(u)[:200])
+        got = alpha(_no_handlers(st), keep=("self",))
+        want = alpha_src(SAVE_SHAPE, keep=("self",))
+        if len(st) != 4 or not isinstance(st[3], ast.Try) or got[:3] != want[:3]:
+            raise Untranslatable("save does not start by dumping every node into a dict, then one try: " + " / ".join(got)[:200])
         t = st[3]
         tb = strip(t.body)
         if len(tb) != 1 or not isinstance(tb[0], ast.AsyncWith) or len(tb[0].items) != 1 or t.orelse or t.finalbody \
                 or len(t.handlers) != 1 or not _raises(t.handlers[0].body, "PersistenceWriteError"):
             raise Untranslatable("try of save")
-        w = tb[0]
+        # the file operations, read from the normalised text of the `async with`
+        w = ast.parse(got[3]).body[0].body[0]
+        wwant = ast.parse(want[3]).body[0].body[0]
         ops = []
         opn = ast.unparse(w.items[0].context_expr)
-        if opn == "aiofiles.open(self.path, mode='w')":
+        if opn == ast.unparse(wwant.items[0].context_expr) and ast.unparse(w.items[0].optional_vars) == ast.unparse(wwant.items[0].optional_vars):
             ops.append(".openTrunc .live")
         else:
             raise Untranslatable("save opens " + opn[:80])
         for x in strip(w.body):
             ux = ast.unparse(x)
-            if ux == "await fil.write(json.dumps(data, sort_keys=True, indent=2))":
+            if ux == ast.unparse(wwant.body[0]):
                 ops.append(".write .live new")
             else:
                 raise Untranslatable("inside the open file: " + ux[:100])
